@@ -1,6 +1,6 @@
 (* C17 - Starving/DAG mutexes: exclusion, no lost wake-up, condition waits. Statements only. *)
 From Coq Require Import List Arith Bool ZArith.
-From Verif.C17_Sync Require Import Model Proofs.
+From Verif.C17_Sync Require Import Model Proofs ProofsDag ProofsWaits.
 Import ListNotations.
 
 (* ---------- StarvingMutex: any number of threads, arbitrary scripts (misuse included), every schedule ---------- *)
@@ -37,7 +37,154 @@ Theorem C17_not_stranded : forall scripts sch,
   (forall t, parked s t \/ finished s t).
 Proof. exact not_stranded_all. Qed.
 
+(* non-vacuity: a free lock with a pending writer and the Signal still owed; a stuck state with a parked reader *)
+Example C17_no_lost_wakeup_nonvacuous :
+  let m := mx (run [(0, 0); (1, 0); (0, 0)] (init [[ALock; AUnlock]; [ALock]])) in
+  lock_free m /\ 0 < pw m /\ sg m = [0] /\ wq m = [1].
+Proof. vm_compute. repeat split; auto. Qed.
+
+Example C17_not_stranded_nonvacuous :
+  let s := run [(0, 0); (1, 0)] (init [[ALock]; [ARLock]]) in stuck s /\ parked s 1 /\ wr (mx s) = [0].
+Proof.
+  split; [|split; [right; reflexivity|reflexivity]].
+  intros t c. destruct t as [|[|[|t]]]; reflexivity.
+Qed.
+
+(* Misuse: the wrong unlock panics and the lock state is exactly what it was (all schedules: a panicking step of the
+   system leaves the mutex unchanged); Unlock of a mutex nobody holds does not panic and changes no lock state. *)
+Theorem C17_misuse :
+  (forall t m, ra m = 0 -> sm_start t ARUnlock m = (m, RPanic)) /\
+  (forall t m, wa m = true -> sm_start t ARUnlock m = (m, RPanic)) /\
+  (forall t m, 0 < ra m -> sm_start t AUnlock m = (m, RPanic)) /\
+  (forall s t c s', step_ev s t c = Some (s', RPanic) -> mx s' = mx s) /\
+  (forall t m m' r, wa m = false -> ra m = 0 -> sm_start t AUnlock m = (m', r) ->
+     r = RCont /\ ra m' = ra m /\ wa m' = wa m /\ pw m' = pw m /\ rd m' = rd m /\ wq m' = wq m /\ wk m' = wk m /\
+     rq m' = rq m /\ rk m' = rk m).
+Proof.
+  split; [exact misuse_runlock|split; [exact misuse_runlock_writer|split; [exact misuse_unlock_readers|
+  split; [exact misuse_step_all|exact misuse_unlock_free]]]].
+Qed.
+
+(* ---------- DAGMutex ---------- *)
+
+(* Every per-entity StarvingMutex (every one ever allocated, dropped or not) of every reachable DAGMutex state, for any
+   threads, scripts (misuse included) and schedules, satisfies exclusion, pending-writer accounting, no lost wake-up. *)
+Theorem C17_dag_exclusion : forall (scripts : list (list dop)) (sch : list (tid * nat)) (m : sm),
+  In m (heap (drun sch (dinit scripts))) ->
+  ra m = length (rd m) /\ (wa m = true <-> length (wr m) = 1) /\ (wa m = true -> rd m = []) /\ (rd m <> [] -> wr m = []) /\
+  pw m = length (wq m) + length (wk m) /\
+  (lock_free m -> 0 < pw m -> wk m <> [] \/ sg m <> []) /\
+  (rq m <> [] -> wa m = true \/ 0 < pw m \/ bc m <> []).
+Proof. exact dag_exclusion_all. Qed.
+
+(* Misuse: Unlock of an unregistered id panics and touches nothing; RUnlock(ids1 ++ id :: ids2) with id unregistered
+   releases exactly ids1, then panics; a panicking step changes neither the registry nor any StarvingMutex. *)
+Theorem C17_dag_misuse :
+  (forall id hp es, lookup id es = None -> dag_begin (DUnlock id) hp es = (hp, es, [MPanic])) /\
+  (forall ids1 es es1 ms id ids2, unregister_all ids1 es = (es1, ms) -> no_panic ms -> lookup id es1 = None ->
+     unregister_all (ids1 ++ id :: ids2) es = (es1, ms ++ [MPanic])) /\
+  (forall s t c s', dstep_ev s t c = Some (s', DVPanic) ->
+     heap s' = heap s /\ ents s' = ents s /\
+     exists th, nth_error (thr s) t = Some th /\ thr s' = upd t (mkDT None [] (dscr th)) (thr s)).
+Proof. split; [exact dag_misuse_unlock|split; [exact dag_misuse_runlock|exact dag_misuse_step]]. Qed.
+
+(* Deadlock freedom along an acyclic order - PARTIAL: the max-waited-entity argument over the wait-for structure of a
+   stuck state. Proved: if every waited entity is held (per-entity no-lost-wake-up, C17_dag_exclusion + the stuck-state
+   argument of C17_not_stranded), every holder still has operations to run, and a holder only waits for strictly greater
+   entities, then nobody waits. NOT proved: that the wait-for structure of the DAGMutex model satisfies H_unfinished /
+   H_order for scripts that acquire along the order (needs the invariant tying the ghost holder lists to script
+   positions across entity drop/re-registration); that link is exercised by the correspondence check only (balanced
+   ordered scripts complete under every arrival order tried).
+   Full statement: forall scripts sch, ordered_balanced scripts -> (forall t c, dstep (drun sch (dinit scripts)) t c = None) ->
+                   forall th, In th (thr (drun sch (dinit scripts))) -> cur th = None /\ todo th = [] /\ dscr th = []. *)
+Theorem C17_dag_acyclic_partial :
+  forall (nthreads : nat) (waits : nat -> option nat) (holds : nat -> nat -> Prop),
+  (forall t e, t < nthreads -> waits t = Some e -> exists h, h < nthreads /\ holds h e) ->
+  (forall h e, h < nthreads -> holds h e -> exists e', waits h = Some e') ->
+  (forall h e e', holds h e -> waits h = Some e' -> e < e') ->
+  forall bound, (forall t e, waits t = Some e -> e < bound) ->
+  forall t, t < nthreads -> waits t = None.
+Proof. exact acyclic_no_waiter. Qed.
+
+(* the doc-comment example of dagmutex.go runs to completion in the model (ordered, balanced scripts) *)
+Example C17_dag_example_completes :
+  let s := drun [(0,0);(0,0);(2,0);(2,0);(1,0);(1,0);(0,0);(0,0);(0,0);(2,0);(1,0);(1,0);(1,0);(2,0);(2,0);(2,0);(2,0);(2,0)]
+                (dinit [[DLock 0; DUnlock 0]; [DLock 1; DUnlock 1]; [DRLock [0; 1]; DRUnlock [0; 1]]]) in
+  ents s = [] /\ map dscr (thr s) = [[]; []; []] /\ map cur (thr s) = [None; None; None] /\ map todo (thr s) = [[]; []; []].
+Proof. vm_compute. repeat split; auto. Qed.
+
+(* ---------- Counter ---------- *)
+
+(* A wait returns only on a true condition; no waiter stays parked on a true condition unless the Broadcast that
+   follows the change is still owed (all schedules); in a state where nothing can move every parked waiter's condition
+   is false. *)
+Theorem C17_counter_waits :
+  (forall t s s',
+     (forall th, c_start t (CWaitBelow th) s = (s', RDone) -> (cval s' < th)%Z /\ s' = s) /\
+     (forall th, c_start t (CWaitAbove th) s = (s', RDone) -> (th < cval s')%Z /\ s' = s) /\
+     (c_cont t s = Some (s', RDone) ->
+        (forall th, aget t (dk s) = Some th -> (cval s' < th)%Z /\ cval s' = cval s) /\
+        (forall th, aget t (dk s) = None -> aget t (ik s) = Some th -> (th < cval s')%Z /\ cval s' = cval s))) /\
+  (forall scripts sch, let s := cst (crun sch (cinit scripts)) in
+     (forall t th, In (t, th) (dq s) -> (cval s < th)%Z -> od s <> []) /\
+     (forall t th, In (t, th) (iq s) -> (th < cval s)%Z -> oi s <> [])) /\
+  (forall scripts sch, let s := crun sch (cinit scripts) in cstuck s ->
+     (forall t th, In (t, th) (dq (cst s)) -> (th <= cval (cst s))%Z) /\
+     (forall t th, In (t, th) (iq (cst s)) -> (cval (cst s) <= th)%Z)).
+Proof. split; [exact counter_wait_sound|split; [exact counter_no_lost_wakeup|exact counter_stuck_waiters_false]]. Qed.
+
+Example C17_counter_waits_nonvacuous :
+  let s := cst (crun [0; 1; 1] (cinit [[CSet 2]; [CWaitBelow 1]; [CUpdate (-2)]])) in
+  dq s = [(1, 1%Z)] /\ od s = [] /\ cval s = 2%Z.
+Proof. vm_compute. repeat split; auto. Qed.
+
+(* ---------- Stack ---------- *)
+
+(* For scripts whose PopOrWait condition changes only in front of a pass through the stack's mutex (what
+   WorkerPool.Shutdown + Stack.SignalShutdown do since 5281186): no waiter is parked on a true condition (element
+   present / wait condition false / size reached) unless the wake-up is still in flight - all schedules. *)
+Theorem C17_stack_waits : forall scripts sch,
+  no_ext scripts ->
+  let s := kst (krun sch (kinit scripts)) in
+  (forall t, In (t, 0) (aq s) -> els s <> [] -> oa s <> []) /\
+  (forall t, In (t, 0) (aq s) -> flag s = false -> kfs s <> [] \/ oa s <> []) /\
+  (forall t th, In (t, S th) (aq s) -> th < length (els s) -> oa s <> []) /\
+  (forall t th, In (t, th) (xq s) -> length (els s) < th -> ox s <> []).
+Proof. exact stack_no_lost_wakeup. Qed.
+
+Theorem C17_stack_wait_sound : forall t s s' r,
+  (popwait_try t s = (s', r) ->
+     match els s with
+     | x :: rest => els s' = rest /\ pops s' = (t, Some x) :: pops s
+     | [] => (r = RDone -> flag s = false /\ pops s' = (t, None) :: pops s) /\ (r <> RDone -> flag s = true /\ pops s' = pops s)
+     end) /\
+  (forall th, below_k t th s = (s', RDone) -> length (els s') < th) /\
+  (forall th, above_k t th s = (s', RDone) -> th < length (els s')).
+Proof. exact stack_wait_sound. Qed.
+
+Example C17_stack_waits_nonvacuous :
+  no_ext [[KPopOrWait]; [KPush 1; KSetFlagLocked false]] /\
+  let s := kst (krun [0; 0; 1] (kinit [[KPopOrWait]; [KPush 1; KSetFlagLocked false]])) in
+  aq s = [(0, 0)] /\ els s = [1] /\ oa s = [1].
+Proof. split; [repeat constructor|vm_compute; repeat split; auto]. Qed.
+
+(* D16b: with an external condition that is written and broadcast without the stack's mutex the statement is false:
+   the waiter parks on a false condition with nothing in flight and nothing can move. *)
+Theorem C17_refuted_popOrWait :
+  let s := krun d16b_schedule (kinit d16b_scripts) in
+  In (0, 0) (aq (kst s)) /\ flag (kst s) = false /\ oa (kst s) = [] /\ kfs (kst s) = [] /\ ak (kst s) = [] /\
+  (forall t, kstep s t = None).
+Proof. exact refuted_popOrWait_external. Qed.
+
 Print Assumptions C17_exclusion.
 Print Assumptions C17_pw.
 Print Assumptions C17_no_lost_wakeup.
 Print Assumptions C17_not_stranded.
+Print Assumptions C17_misuse.
+Print Assumptions C17_dag_exclusion.
+Print Assumptions C17_dag_misuse.
+Print Assumptions C17_dag_acyclic_partial.
+Print Assumptions C17_counter_waits.
+Print Assumptions C17_stack_waits.
+Print Assumptions C17_stack_wait_sound.
+Print Assumptions C17_refuted_popOrWait.
